@@ -39,7 +39,9 @@ PARTIAL = [
     'equal only when no in-disk sample has zero intensity (finding clipped-pupil-norm)',
     'MTF <= diffraction limit: proved for the 1-D transform (autocorrelation theorem + triangle inequality); the 2-D '
     'separable extension is validated numerically, not proved',
-    'sampled FFT MTF equals (2/pi)(phi - cos phi sin phi) "to within sampling error": numerical, checked by correspondence only',
+    'sampled FFT MTF equals (2/pi)(phi - cos phi sin phi) "to within sampling error": numerical; checked on every run (closed form '
+    'evaluated in Coq against the real FFTMTF of a stigmatic paraboloid, tolerance 1/num_rays), not proved',
+    'mtf_tan_bounds is proved for the tangential slice; the sagittal slice is the same code with the axes swapped (correspondence only)',
     'total energy is proved on the unshifted spectrum (fftshift is a permutation of pixels; not proved)',
     'padding: the theorems take the padded pupil as given; that pad2 only adds zero samples is checked by correspondence',
 ]
@@ -459,10 +461,25 @@ def check_difflim(ctx):
             n += 1
         if i == 0:
             samples.append({'nu': [float(x) for x in nus[:4]], 'scale_factor': [float(x) for x in sf[:4]]})
+    # the sampled FFT MTF of an unaberrated circular pupil (real paraboloid) against the closed form evaluated in Coq,
+    # within the sampling error 1/num_rays
+    from optiland.mtf import FFTMTF
+    nclosed = len(lines)
+    for (nr, gs) in ([(16, 32), (24, 48)] if ctx.quick() else [(16, 32), (24, 48), (32, 64), (64, 128), (128, 256)]):
+        fm = FFTMTF(paraboloid(), fields=[(0.0, 0.0)], wavelength=0.55, num_rays=nr, grid_size=gs)
+        if fm.psf[0].shape != (gs, gs):
+            continue
+        for cv in fm.mtf[0]:
+            for sidx, v in enumerate(cv):
+                nu = min(1.0, sidx / nr)
+                lines.append(f'PrimFloat.leb (PrimFloat.abs (PrimFloat.sub (difflim (O:=FOps) {fh(nu)}) {fh(v)})) {fh(1.0 / nr)}')
+                n += 1
     res = vlib.run_cases('c11dl', 'From OV Require Import Model.M_C11.', ['Eval vm_compute in (report [\n' + ';\n'.join(lines) + '\n]).\n'])
     if res[0][0] == 'error':
         return {'name': 'difflim', 'n': 0, 'error': res[0][1]}
-    dis = [{'what': 'GeometricMTF scale factor differs from difflim', 'line': lines[i][:200], 'violates_property': False} for i in res[0][2]]
+    dis = [({'what': 'GeometricMTF scale factor differs from difflim', 'line': lines[i][:200], 'violates_property': False} if i < nclosed else
+            {'kind': 'mtf-vs-closed-form', 'site': 'FFTMTF', 'what': 'sampled MTF of a perfect paraboloid is further than 1/num_rays from the closed form',
+             'line': lines[i][-120:], 'violates_property': True}) for i in res[0][2]]
     return {'name': 'difflim', 'n': n, 'nontrivial': n, 'disagreements': dis, 'samples': samples}
 
 
@@ -678,16 +695,17 @@ def oracle_lens(o, n, grid, perfect=False, name='lens'):
         except ValueError as e:
             out.append({'kind': 'view-axis-length', 'site': 'FFTMTF.view', 'lens': name, 'num_rays': n, 'grid_size': grid,
                         'axis_len': grid // 2, 'curve_len': int(len(m.mtf[0][0])), 'python_error': str(e)[:100]})
-    if perfect and curves:
-        # plotted curve against the plotted diffraction limit
-        ref = [c for c in curves if c[0] == 'Diffraction Limit']
-        tan = [c for c in curves if 'Tangential' in c[0]]
-        if ref and tan:
-            k = min(len(ref[0][2]), len(tan[0][2]))
-            err = float(np.max(np.abs(ref[0][2][:k] - tan[0][2][:k])))
-            if err > 4.0 / n and not any(x['kind'] == 'freq-axis' for x in out):
-                out.append({'kind': 'mtf-vs-closed-form', 'site': 'FFTMTF.view', 'lens': name, 'num_rays': n, 'grid_size': grid,
-                            'max_abs_error': err})
+    if perfect and p.psf.shape == (grid, grid) and np.all(np.isfinite(m.mtf[0][0])):
+        # sampled MTF of the unaberrated circular pupil against (2/pi)(phi - cos phi sin phi): index s is a shift of s pupil
+        # samples, i.e. nu = s/num_rays; the observed sampling error is below 0.9/num_rays
+        for nm, cv in (('tangential', m.mtf[0][0]), ('sagittal', m.mtf[0][1])):
+            nu = np.clip(np.arange(len(cv)) / n, 0, 1)
+            phi = np.arccos(nu)
+            err = float(np.max(np.abs(cv - 2 / np.pi * (phi - np.cos(phi) * np.sin(phi)))))
+            if err > 1.0 / n:
+                out.append({'kind': 'mtf-vs-closed-form', 'site': 'FFTMTF', 'lens': name, 'curve': nm, 'num_rays': n,
+                            'grid_size': grid, 'max_abs_error': err, 'allowed': 1.0 / n})
+                break
     return out
 
 
